@@ -655,8 +655,26 @@ func init() {
 				pf.Ctrl = []wop{{opAdvance, 3}, {opSettle, 1}}
 				pf.CtrlOps = [2]int{1, 4}
 			}
+			stopVsResume := len(pf.Ctrl) == 0 && r.Chance(6)
+			if stopVsResume {
+				pf.GatedPct, pf.WarmPct, pf.AckCapPct = 60, 0, 0
+				pf.Releaser = 100
+			}
 			bigBatch(pf, r, tier)
 			c, p := generate(r, pf)
+			if stopVsResume {
+				// a paused worker, a Stop waiting for the jobs in flight and a Resume from another
+				// goroutine at the same time: whatever state the worker reports afterwards, a handle
+				// it hands out then completes if it says Running
+				p.Tasks = append(p.Tasks, []Op{{K: opYield}, {K: opPause}, {K: opWarmDone}})
+				p.Tasks = append(p.Tasks, []Op{{K: opAwaitWarm}, {K: pickW(r, []wop{{opStop, 3}, {opWaitAndStop, 1}})}})
+				var ops []Op
+				ops = append(ops, Op{K: opAwaitWarm})
+				for k := r.Intn(4); k > 0; k-- {
+					ops = append(ops, Op{K: opYield})
+				}
+				p.Tasks = append(p.Tasks, append(ops, Op{K: opResume}))
+			}
 			for _, q := range c.Queues {
 				if q.AckCap {
 					// Purge on a queue with the acknowledgement methods empties the backend and
@@ -807,6 +825,24 @@ func init() {
 				var ops []Op
 				for i, n := 0, 1+r.Intn(2); i < n; i++ {
 					ops = append(ops, Op{K: pickW(r, []wop{{opStop, 4}, {opPauseAndWait, 2}, {opWaitAndStop, 1}})})
+				}
+				p.Tasks = append(p.Tasks, ops)
+				return c, p
+			case 6:
+				// TunePool from another goroutine while the controller pauses and resumes (warm pool,
+				// several idle goroutines kept, no expiry: the resize has work to do): a pause that
+				// returned stays in force whatever the resize did meanwhile
+				pf.Conc = []int{2, 3, 4, 8}
+				pf.Ratio, pf.Expiry = []int{50, 100}, []int{0}
+				pf.WarmPct = 70
+				pf.Ctrl = []wop{{opPause, 3}, {opPauseAndWait, 4}, {opResume, 4}, {opSettle, 2}}
+				c, p := generate(r, pf)
+				var ops []Op
+				for i, n := 0, 2+r.Intn(5); i < n; i++ {
+					for k := r.Intn(4); k > 0; k-- {
+						ops = append(ops, Op{K: opYield})
+					}
+					ops = append(ops, Op{K: opTune, A: pick(r, []int{1, 2, 3, 4, 8})})
 				}
 				p.Tasks = append(p.Tasks, ops)
 				return c, p
@@ -1061,6 +1097,12 @@ func init() {
 					pf.CtrlOps = [2]int{1, 3}
 					pf.Releaser = 100
 				}
+			} else if r.Chance(15) {
+				// the queue handle is closed while batches are being submitted: the items that
+				// were accepted before the close still deliver their own outcomes, all of them
+				pf.BatchPct, pf.BatchMax = 60, 8
+				pf.Cancellers, pf.CancelOps = [2]int{1, 1}, [2]int{1, 2}
+				pf.Cancel = []wop{{opCloseQueue, 1}}
 			}
 			return generate(r, pf)
 		},
